@@ -60,7 +60,8 @@ ASSUMPTIONS = [
     "so that their resolution is decided by Python scoping without ambiguity",
     "`if TYPE_CHECKING` / `if typing.TYPE_CHECKING` directly in module/class bodies guards its body; below another block or as `elif` the runtime flag "
     "of the contained definitions is not judged (left open by the statement)",
-    "`@x.setter` / `@x.deleter def x` over an existing property: either definition may represent the attribute",
+    "`@x.setter` / `@x.deleter def x` when a member x already exists (any kind): the existing binding or the new definition (as attribute or "
+    "function) are accepted; an instance attribute assigned over a property of the same name: either",
     "`while` / `match` blocks are not among the blocks the property names: names bound inside them may or may not be members; definitions nested in "
     "`__init__` must not raise and must not become class members, where they are recorded is not judged",
     "exports are those of the surviving `__all__` binding (a conditional re-assignment that does not displace the existing attribute leaves them "
